@@ -147,6 +147,16 @@ fn c10_crc32c_byte_step() {
     kani::cover!(true, "byte step");
 }
 
+/// the writer's fold of a CRC into the 16-bit token, for ALL 2^32 CRC values: hi16 ^ lo16, with 0 stored as 1 (the released rule, which
+/// recovery's private copy `record_token` and every independent reader apply as well)
+#[kani::proof]
+fn c10_writer_token_fold() {
+    let crc: u32 = kani::any();
+    let t = nonzero_token(crc);
+    assert!(t == ref_fold(crc) && t != 0);
+    kani::cover!(((crc >> 16) as u16) == (crc as u16), "a CRC whose halves cancel");
+}
+
 #[kani::proof]
 #[kani::unwind(10)]
 fn c10_crc32c_sw_matches_bitwise_3() {
